@@ -141,7 +141,8 @@ Inductive pop :=
 | PRunning                        (* transition(): STARTING -> RUNNING *)
 | PStop                           (* stop(): signal sent, STOPPING *)
 | PFinish (last : bytes) (w : wres) (quick : bool)   (* reaped: finish() *)
-| PStopFail.                      (* stop(): signalling fails (not ESRCH): process state UNKNOWN, pid kept *)
+| PStopFail                       (* stop(): signalling fails (not ESRCH): process state UNKNOWN, pid kept *)
+| PSpawnFail.                     (* spawn() whose fork() fails: BACKOFF, the new pipes and dispatchers are dropped *)
 
 Section Model.
 Variable h : handler.
@@ -207,6 +208,15 @@ Definition proc_step (i : nat) (p : proc) (op : pop) : proc * list sout :=
     if negb (p_pid p =? 0) &&
        (match p_state p with PS_RUNNING | PS_STARTING => true | _ => false end)
     then (mkP PS_UNKNOWN (p_pid p) false (p_l p) (p_has_stdin p) (p_ibuf p) (p_iclosed p)
+              (p_accepted p) (p_broken p) (p_envs p), [])
+    else (p, [SInapplicable])
+  | PSpawnFail =>
+    (* make_dispatchers ran (the new PEventListenerDispatcher reset listener_state and event), then
+       fork failed: pipes closed, self.pipes = {}, self.dispatchers = {} *)
+    if (p_pid p =? 0) &&
+       (match p_state p with PS_EXITED | PS_FATAL | PS_BACKOFF | PS_STOPPED => true | _ => false end)
+    then (mkP PS_BACKOFF 0 false
+              (mkL (l_state fresh_listener) [] None [] None true) false [] true
               (p_accepted p) (p_broken p) (p_envs p), [])
     else (p, [SInapplicable])
   end.
